@@ -135,13 +135,15 @@ def main(pid, tier, seed, replay=None):
 
     def classify(recs):
         for r in recs:
+            explained = False
             if r["oracle"] is not None:
                 sig, msg = r["oracle"]
                 if sig in known_sigs:
                     known_hit.setdefault(sig, r)
+                    explained = True      # the model (which has the property) and the code differ exactly on a listed finding
                 else:
                     viol.append(r)
-            if not r["agree"]:
+            if not r["agree"] and not explained:
                 disagreements.append(r)
 
     classify(recs)
